@@ -214,7 +214,7 @@ fn classes(c: &Case, ctx: &mut Ctx) {
 
 pub struct C01;
 
-fn c01_check(c: &Case, ctx: &mut Ctx) -> Result<(), Failure> {
+pub fn c01_check(c: &Case, ctx: &mut Ctx) -> Result<(), Failure> {
     classes(c, ctx);
     let et = extra_et(c);
     // placement C: inside a heap Vec surrounded by 0x5a poison
@@ -286,6 +286,13 @@ impl Property for C01 {
     fn id(&self) -> &'static str {
         "C01"
     }
+    fn post(&self, tier: Tier, seed: u64, root: &std::path::Path) -> Result<Value, Failure> {
+        if tier == Tier::Thorough {
+            crate::fuzzapi::run_fuzz_campaign("C01", root, seed, 400_000, 8)
+        } else {
+            Ok(Value::Null)
+        }
+    }
     fn tape_len(&self) -> usize {
         640
     }
@@ -326,7 +333,7 @@ impl Property for C01 {
 
 pub struct C02;
 
-fn c02_check(c: &Case, ctx: &mut Ctx) -> Result<(), Failure> {
+pub fn c02_check(c: &Case, ctx: &mut Ctx) -> Result<(), Failure> {
     classes(c, ctx);
     let out = walk_all(&c.bytes, &c.ranges, extra_et(c), false);
     ctx.eval((c.ranges.len() * with_entries(|e| e.len())) as u64);
@@ -351,6 +358,13 @@ fn strip_param(name: &str) -> String {
 impl Property for C02 {
     fn id(&self) -> &'static str {
         "C02"
+    }
+    fn post(&self, tier: Tier, seed: u64, root: &std::path::Path) -> Result<Value, Failure> {
+        if tier == Tier::Thorough {
+            crate::fuzzapi::run_fuzz_campaign("C02", root, seed, 400_000, 8)
+        } else {
+            Ok(Value::Null)
+        }
     }
     fn tape_len(&self) -> usize {
         640
